@@ -18,3 +18,5 @@ open Clipper.Props.C12
 #print axioms insignificant_delta
 #print axioms rectclip_per_path
 #print axioms rectclip_scratch_clean_after
+#print axioms lmBefore_is_generated
+#print axioms intersectListSort_spec
